@@ -13,7 +13,9 @@ open PyGen.constants
 theorem C12_src_const_start_signature : Stream.sig = MESSAGE_START_SIGNATURE := by decide
 theorem C12_src_const_stop_signature : stopSig = MESSAGE_STOP_SIGNATURE := by decide
 
-namespace Stream
+end Bufr
+
+namespace Bufr.Stream
 open PyGen.decoder PyGen.decoder.generate_bufr_message
 
 /-- **Continue-on-error, read off the translated source** (`Gen/PyDecoder.lean`, regenerated from
@@ -37,14 +39,14 @@ theorem C12_src_step_eq (env : Env) (hcb : CbOk env) (s : Bytes) (io coe : Bool)
     (sro : Option Py.Obj) (sr : Py.Obj) (hsro : Py.truthyOptSeq fe = true → sro = some sr)
     (v : Locals) (j k : Nat) (hinv : Inv s io coe fe sro v j) (hj : j ≤ s.length)
     (hk : findSig (s.drop j) = some k) :
-    StepOk env s io coe fe sro v (j + k) (step (decOf env) (cfgOf env io coe fe sr) (s.drop (j + k)))
+    StepOk env s io coe fe sro v (j + k) (step (srcDec env) (srcCfg env io coe fe sr) (s.drop (j + k)))
       (while_1.body env v) :=
   body_step env hcb s io coe fe sro sr hsro v j k hinv hj hk
 
 /-- an exception that is not a `PyBufrKitError` is not caught by the handler, whatever `continue_on_error` says: the
     model's `Err.isLib` is exactly `isinstance(e, PyBufrKitError)` of the translated `except` clause -/
 theorem C12_src_library_error_class (env : Env) (e : Py.Exc) :
-    (toErr env e).isLib = env.isinstance_PyBufrKitError e := toErr_isLib env e
+    (srcErr env e).isLib = env.isinstance_PyBufrKitError e := srcErr_isLib env e
 
 /-- the hypotheses of `C12_src_resume_policy` are satisfiable -/
 example : ∃ (env : Env) (s : Bytes) (v : Locals) (e : Py.Exc), Inv s false true none none v 0 ∧
@@ -57,6 +59,4 @@ example : ∃ (env : Env) (s : Bytes) (v : Locals) (e : Py.Exc), Inv s false tru
    sig, ⟨sig, false, true, none, none, 0, false, default, {}, {}, {}, default, []⟩, .raised "PyBufrKitError",
    ⟨rfl, rfl, rfl, rfl, rfl, rfl⟩, by decide, rfl, rfl⟩
 
-end Stream
-
-end Bufr
+end Bufr.Stream
